@@ -203,7 +203,7 @@ func (c *TermCtx) internStr(s string) int64 {
 	c.strIDs[s] = id
 	c.strByID[id] = s
 	if c.strlenUsed {
-		c.axioms = append(c.axioms, fmt.Sprintf("(assert (= (strlen %d) %d))", id, len(s)))
+		c.addAxiom(fmt.Sprintf("(assert (= (strlen %d) %d))", id, len(s)))
 	}
 	return id
 }
@@ -581,12 +581,12 @@ func (c *TermCtx) StrLen(t *Term) *Term {
 	if !c.strlenUsed {
 		c.strlenUsed = true
 		for s, id := range c.strIDs {
-			c.axioms = append(c.axioms, fmt.Sprintf("(assert (= (strlen %d) %d))", id, len(s)))
+			c.addAxiom(fmt.Sprintf("(assert (= (strlen %d) %d))", id, len(s)))
 		}
 	}
 	r := c.Raw(SInt, "(strlen $0)", t)
 	if r.lo == nil {
-		c.axioms = append(c.axioms, fmt.Sprintf("(assert (>= (strlen %s) 0))", t.name))
+		c.addAxiom(fmt.Sprintf("(assert (>= (strlen %s) 0))", t.name), t)
 	}
 	r.lo = big.NewInt(0)
 	r.hi = big.NewInt(1 << 30)
